@@ -7,11 +7,21 @@
    input for specifications whose array elements occupy at least 4 bytes and in which no
    counted array is nested in its own element type; the allocator's actual byte counts are tied
    to this ledger by the correspondence check K3a.)
+   C09_total_linear: the SUM.  For a declared type satisfying the decidable hypothesis lin_from_b
+   (sup4_b, no inline variable-length opaque position [F1] in any type it reaches, counted-array elements of positive
+   size, and no counted array nested in its own element type [F15] -- i.e. a labelling rho that
+   strictly decreases along counted-array edges exists), for EVERY input and whatever the
+   outcome, the cost of all requests -- elements reserved for arrays, bytes of collected
+   strings, one per box -- is at most (rho + 1) * (bytes in the buffer), where rho is the
+   nesting depth of counted arrays below the decoded type.  Linear, with the constant the
+   property asks for ("plus the element maxima the specification declares" enters through
+   size_of::<T>(), which K3a ties to the allocator's byte counts).
    Finding F15 (C09_refuted_linear_F15): when a counted array can contain a counted array of
    the same declaration, every nesting level reserves min(count, remaining) elements while the
    outer reservations are alive; d levels reserve 4d(d-1) elements for 8d input bytes.
    Proofs in XdrProofs.LedgerProofs. *)
-From XdrProofs Require Import LedgerProofs.
+From XdrProofs Require Import LedgerProofs Linear.
+From XdrProps Require C01.
 From XdrModel Require Import Emit Sem.
 Open Scope N_scope.
 Open Scope list_scope.
@@ -57,6 +67,51 @@ Theorem C09_over_max_reserves_nothing :
 Proof. exact read_variable_array_over_max. Qed.
 Print Assumptions C09_over_max_reserves_nothing.
 
+(* ---- the total ---- *)
+Theorem C09_total_linear :
+  forall (A : ast) (md : module_ir) (R : string -> Prop) (rho : string -> N),
+    gen A = EOk md -> sup4 A ->
+    (forall n t, R n -> get_type A n = Some t -> rrefs_ok A R t) ->   (* R is closed under reference *)
+    (forall n t, R n -> get_type A n = Some t -> nof1_type t) ->      (* and free of F1 positions *)
+    vranked A rho -> elems_positive A md ->
+    forall (fuel : nat) (n : string) (t : ast_type) (s : st),
+      R n -> get_type A n = Some t -> bytes_ok (s_rem s) ->
+      match dec md fuel n s with
+      | Ok _ s' => remaining s' <= remaining s /\
+                   exists d, s_led s' = s_led s ++ d /\ costs d <= (rho n + 1) * (remaining s - remaining s')
+      | Err _ s' => exists d, s_led s' = s_led s ++ d /\ costs d <= (rho n + 1) * remaining s
+      | Panic _ => False
+      | Fuel => True
+      end.
+Proof.
+  intros A md R rho Hg H4 Hc Hf Hr Hp fuel n t s HRn Hget Hb.
+  pose proof (dec_linear A md Hg H4 R Hc Hf rho Hr Hp fuel n t HRn Hget s Hb) as H.
+  destruct (dec md fuel n s); try exact I; try contradiction; [|exact H].
+  destruct H as [_ [_ [Hle Hd]]]. split; assumption.
+Qed.
+Print Assumptions C09_total_linear.
+
+(* decidable hypothesis, per decoded type: lin_from_b A n = sup4_b A, the types reachable from
+   n hold no F1 position, counted-array elements are positive, no counted array is nested in
+   its own element type *)
+Theorem C09_total_linear_decidable :
+  forall (A : ast) (md : module_ir) (n : string) (t : ast_type) (fuel : nat) (s : st),
+    gen A = EOk md -> lin_from_b A n = true -> get_type A n = Some t -> bytes_ok (s_rem s) ->
+    match dec md fuel n s with
+    | Ok _ s' | Err _ s' =>
+        exists d, s_led s' = s_led s ++ d /\
+                  costs d <= (vdepth A (2 * List.length (types A) + 2) n + 1) * remaining s
+    | Panic _ => False
+    | Fuel => True
+    end.
+Proof. exact linear_from_b. Qed.
+Print Assumptions C09_total_linear_decidable.
+
+(* non-vacuity: the recursive demo specification of C01 (counted array of structs, optional
+   link) satisfies lin_b; the self-nested one below does not *)
+Example C09_lin_nonvacuous : lin_from_b C01.A_demo "reply" = true.
+Proof. vm_compute. reflexivity. Qed.
+
 (* ---- finding F15: the sum of the requests is not linear for self-nested counted arrays ---- *)
 Definition A_nest : ast :=
   {| constants := [];
@@ -88,3 +143,6 @@ Theorem C09_refuted_linear_F15 :
   nest_total 64 = Some 16128 /\ nest_total 128 = Some 65024.
 Proof. repeat split; vm_compute; reflexivity. Qed.
 Print Assumptions C09_refuted_linear_F15.
+
+Example C09_F15_outside_lin_b : lin_from_b A_nest "tnest" = false /\ vranked_b A_nest = false.
+Proof. split; vm_compute; reflexivity. Qed.
